@@ -64,6 +64,7 @@ type Engine struct {
 	TxCount      int
 	Watch        []string // extra bech32 addresses whose balances are tracked
 	history      []string // short textual history for replay files
+	accepted     map[nonceKey]bool // pairs for which a receive succeeded on this chain history (never resynchronised)
 	c13Broken    bool
 	c13Started   bool
 }
@@ -132,6 +133,7 @@ func (e *Engine) ledgerSnapshot(extra []string) map[string]*big.Int {
 		out[Acct(i)] = e.C.Balance(AcctBytes(i), e.MintDenom())
 	}
 	out[moduleBech()] = e.C.Balance(sdk.AccAddress(ct.ModuleAddress), e.MintDenom())
+	out[LongAcct()] = e.C.Balance(LongAcctBytes(), e.MintDenom())
 	for _, a := range append(extra, e.Watch...) {
 		if _, ok := out[a]; !ok && validAddr(a) {
 			out[a] = e.C.Balance(addrBytes(a), e.MintDenom())
@@ -363,9 +365,27 @@ func (e *Engine) Exec(tx Tx) *Report {
 		e.M = st
 	}
 	e.decodeEvents(&tx, rep)
+	e.checkExactlyOnce(&tx, rep)
+	e.checkReplacementKeeps(&tx, rep)
 	e.checkDeps(&tx, rep, expDeps, fallible)
 	if txExp != DontCare {
-		e.checkEvents(&tx, rep)
+		contentDC := false
+		for _, ex := range rep.Exp {
+			contentDC = contentDC || ex.ContentDC
+		}
+		if !contentDC {
+			e.checkEvents(&tx, rep)
+		}
+		e.checkLedger(&tx, rep, preLedger, extraAddrs)
+	} else if len(rep.Exp) == 1 && len(tx.Msgs) == 1 && (rep.Exp[0].Kind == "ReplaceMessage" || rep.Exp[0].Kind == "ReplaceDepositForBurn") && rep.Exp[0].Sent != nil {
+		// outcome was don't-care (e.g. an empty new destination caller), but a replacement that succeeds is still
+		// judged by content: "exactly the requested destination caller (all-zero when none)"
+		if len(rep.Exp[0].Sent.Msg.Caller) == 0 {
+			rep.Exp[0].Sent.Msg.Caller = make([]byte, 32)
+		}
+		if len(rep.Exp[0].Sent.Msg.Caller) == 32 && len(rep.Exp[0].Sent.Msg.Recipient) == 32 && (rep.Exp[0].Kind != "ReplaceDepositForBurn" || len(rep.Exp[0].Sent.Msg.Body) == 132) {
+			e.checkEvents(&tx, rep)
+		}
 		e.checkLedger(&tx, rep, preLedger, extraAddrs)
 	}
 	e.checkWrites(&tx, rep, kindStr)
@@ -1090,4 +1110,91 @@ func min(a, b int) int {
 		return a
 	}
 	return b
+}
+
+// checkExactlyOnce: C02/C04 — independent of the model's used-set (which is resynchronised with the chain
+// after a reported divergence): a second successful receive for a (source domain, nonce) pair is a violation.
+func (e *Engine) checkExactlyOnce(tx *Tx, rep *Report) {
+	if e.accepted == nil {
+		e.accepted = map[nonceKey]bool{}
+	}
+	for _, m := range tx.Msgs {
+		rx, ok := m.(*ct.MsgReceiveMessage)
+		if !ok {
+			continue
+		}
+		d, err := ref.DecodeMessage(rx.Message)
+		if err != nil {
+			continue
+		}
+		k := nonceKey{d.SrcDomain, d.Nonce}
+		e.Rc.Cov.Assert("C02.exactly-once")
+		if e.accepted[k] {
+			props := []string{"C02"}
+			if bytes.Equal(d.Recipient, modulePadded) {
+				props = append(props, "C04")
+			}
+			e.viol(props, "exactly-once", "C02:second-success", fmt.Sprintf("a second receive succeeded for (%d,%d)", k.Domain, k.Nonce), e.caseOf(tx, ""))
+		}
+		e.accepted[k] = true
+	}
+}
+
+// checkReplacementKeeps: C09 — whatever the model thought of the request, a replacement that succeeds keeps the
+// original's nonce, domains, sender and recipient (and burn token, amount, depositor for deposit replacements).
+func (e *Engine) checkReplacementKeeps(tx *Tx, rep *Report) {
+	if len(tx.Msgs) != 1 || len(rep.Sent) != 1 {
+		return
+	}
+	var orig []byte
+	deposit := false
+	switch x := tx.Msgs[0].(type) {
+	case *ct.MsgReplaceMessage:
+		orig = x.OriginalMessage
+	case *ct.MsgReplaceDepositForBurn:
+		orig, deposit = x.OriginalMessage, true
+	default:
+		return
+	}
+	o, err1 := ref.DecodeMessage(orig)
+	n, err2 := ref.DecodeMessage(rep.Sent[0])
+	if err1 != nil || err2 != nil {
+		return
+	}
+	bad := func(f string) {
+		e.viol([]string{"C09", "C06"}, "replacement-keeps", "C09:replacement-changed:"+f,
+			fmt.Sprintf("the replacement differs from the original in %s: original %x, replacement %x", f, orig, rep.Sent[0]), e.caseOf(tx, ""))
+	}
+	e.Rc.Cov.Assert("C09.replacement-keeps")
+	switch {
+	case o.Nonce != n.Nonce:
+		bad("nonce")
+	case o.SrcDomain != n.SrcDomain || o.DstDomain != n.DstDomain:
+		bad("domains")
+	case !bytes.Equal(o.Sender, n.Sender):
+		bad("sender")
+	case !bytes.Equal(o.Recipient, n.Recipient):
+		bad("recipient")
+	}
+	if deposit {
+		ob, e1 := ref.DecodeBurn(o.Body)
+		nb, e2 := ref.DecodeBurn(n.Body)
+		if e1 != nil {
+			return
+		}
+		if e2 != nil {
+			bad("body-shape")
+			return
+		}
+		switch {
+		case !bytes.Equal(ob.BurnToken, nb.BurnToken):
+			bad("burn-token")
+		case ob.Amount.Cmp(nb.Amount) != 0:
+			bad("amount")
+		case !bytes.Equal(ob.Sender, nb.Sender):
+			bad("depositor")
+		case ob.Version != nb.Version:
+			bad("body-version")
+		}
+	}
 }
